@@ -9,15 +9,18 @@ import (
 	"fmt"
 	"io"
 	"net"
+	"os"
 	"runtime"
 	"sort"
 	"strings"
 	"sync"
+	"sync/atomic"
 	"testing"
 	"time"
 
 	"github.com/vapourismo/knx-go/knx"
 	"github.com/vapourismo/knx-go/knx/knxnet"
+	"golang.org/x/net/ipv4"
 	"pgregory.net/rapid"
 	"verif/harness/common"
 )
@@ -372,6 +375,113 @@ func c16RunInner(p c16Plan) *common.Fail {
 				}
 			}
 		}
+	case "router-recv", "router-send":
+		// the multicast socket (ListenRouterOnInterface, loopback enabled) against a peer that is a member of the same group
+		probeMulticast()
+		if !mcastOK {
+			return nil
+		}
+		want, _ := decodeAll(p.Frames)
+		if want == nil {
+			return nil
+		}
+		k := int(atomic.AddInt32(&confSeq, 1))
+		pid := os.Getpid()
+		grp := &net.UDPAddr{IP: net.IPv4(239, 253, byte(1+pid%250), byte(1+k%250)), Port: 22000 + (pid*13+k)%20000}
+		pc, err := net.ListenUDP("udp4", grp)
+		if err != nil {
+			return nil
+		}
+		defer pc.Close()
+		pp := ipv4.NewPacketConn(pc)
+		if pp.JoinGroup(nil, grp) != nil {
+			return nil
+		}
+		pp.SetMulticastLoopback(true)
+		sock, err := knxnet.ListenRouterOnInterface(nil, grp.String(), true)
+		if err != nil {
+			return nil
+		}
+		defer sock.Close()
+		if p.Mode == "router-recv" {
+			var got []knxnet.Service
+			sent := 0
+			for sent < len(p.Frames) {
+				w := 4
+				if sent+w > len(p.Frames) {
+					w = len(p.Frames) - sent
+				}
+				for i := 0; i < w; i++ {
+					pc.WriteToUDP(unhex(p.Frames[sent+i]), grp)
+				}
+				g, closed := collect(sock.Inbound(), w, limit)
+				got = append(got, g...)
+				if closed || len(g) < w {
+					return common.Failf("delivered-count", "router socket: after %d datagrams to the group only %d were delivered on Inbound() (closed=%v)", sent+w, len(got), closed)
+				}
+				sent += w
+			}
+			if f := compareDelivered(want, got, fmt.Sprintf("multicast sequence of %d datagrams", len(want))); f != nil {
+				return f
+			}
+			sock.Close()
+			extra, closed := expectClosed(sock.Inbound(), limit)
+			if len(extra) > 0 {
+				return common.Failf("delivered-twice", "router socket: %d extra value(s) on Inbound() after all datagrams had been delivered", len(extra))
+			}
+			if !closed {
+				return common.Failf("inbound-not-closed", "router socket: Inbound() did not close within 5 s after Close")
+			}
+			return nil
+		}
+		// router-send: every Send is one datagram to the group equal to the frame's encoding (the socket
+		// hears its own transmissions too: drain them so that its receiver never blocks)
+		go func() {
+			for range sock.Inbound() {
+			}
+		}()
+		wantBytes := map[string]int{}
+		var vals []knxnet.ServicePackable
+		for _, sv := range want {
+			sp, ok := sv.(knxnet.ServicePackable)
+			if !ok {
+				return nil
+			}
+			vals = append(vals, sp)
+			wantBytes[string(knxnet.AllocAndPack(sp))]++
+		}
+		senders := p.Senders
+		if senders < 1 {
+			senders = 1
+		}
+		var wg sync.WaitGroup
+		for g := 0; g < senders; g++ {
+			wg.Add(1)
+			go func(g int) {
+				defer wg.Done()
+				for i := g; i < len(vals); i += senders {
+					sock.Send(vals[i])
+					if i%4 == 3 {
+						time.Sleep(200 * time.Microsecond) // keep the group's receive queues short
+					}
+				}
+			}(g)
+		}
+		buf := make([]byte, 65536)
+		pc.SetReadDeadline(time.Now().Add(limit))
+		for n := 0; n < len(vals); n++ {
+			m, _, err := pc.ReadFromUDP(buf)
+			if err != nil {
+				wg.Wait()
+				return common.Failf("peer-read", "router socket: the group member received %d of %d datagrams: %v", n, len(vals), err)
+			}
+			if wantBytes[string(buf[:m])] == 0 {
+				wg.Wait()
+				return common.Failf("frame-garbled", "router socket with %d concurrent senders: the group received %x, which is not the encoding of any frame sent (or sent fewer times)", senders, buf[:m])
+			}
+			wantBytes[string(buf[:m])]--
+		}
+		wg.Wait()
 	case "tcp-close-race", "udp-close-race":
 		// the peer keeps transmitting while the application calls Close at a drawn moment and drains Inbound:
 		// what was delivered must be an in-order, duplicate-free part of what was sent (a prefix on TCP),
@@ -592,7 +702,7 @@ func genFrames(rt *rapid.T, n int, maxLen int) []string {
 }
 
 func genPlanC16(rt *rapid.T) c16Plan {
-	mode := rapid.SampledFrom([]string{"tcp-recv", "tcp-recv", "tcp-recv", "udp-recv", "tcp-send", "udp-send", "hpai", "tcp-close-race", "udp-close-race"}).Draw(rt, "mode")
+	mode := rapid.SampledFrom([]string{"tcp-recv", "tcp-recv", "tcp-recv", "udp-recv", "tcp-send", "udp-send", "hpai", "tcp-close-race", "udp-close-race", "router-recv", "router-send"}).Draw(rt, "mode")
 	p := c16Plan{Mode: mode}
 	switch mode {
 	case "hpai":
@@ -643,8 +753,11 @@ func genPlanC16(rt *rapid.T) c16Plan {
 			}
 		}
 		p.PeerClose = rapid.Bool().Draw(rt, "peer-close")
-	case "udp-recv":
+	case "udp-recv", "router-recv":
 		p.Frames = genFrames(rt, rapid.IntRange(1, 40).Draw(rt, "frames"), 1024)
+	case "router-send":
+		p.Frames = genFrames(rt, rapid.IntRange(1, 24).Draw(rt, "frames"), 1024)
+		p.Senders = rapid.IntRange(1, 6).Draw(rt, "senders")
 	case "tcp-close-race", "udp-close-race":
 		// a few distinct frames repeated with a running tunnelling sequence number so that every frame is unique
 		n := rapid.IntRange(20, 300).Draw(rt, "race-frames")
@@ -707,7 +820,7 @@ func TestC16(t *testing.T) {
 			if len(p.Frames) >= 2 && len(p.Cuts) > 0 {
 				rec.NonTrivial(common.HashJSON(p))
 			}
-		} else if p.Senders >= 2 || p.Mode == "udp-recv" || p.Mode == "hpai" || strings.HasSuffix(p.Mode, "close-race") {
+		} else if p.Senders >= 2 || p.Mode == "udp-recv" || p.Mode == "hpai" || strings.HasSuffix(p.Mode, "close-race") || strings.HasPrefix(p.Mode, "router-") {
 			rec.NonTrivial(common.HashJSON(p))
 		}
 		rec.Class(cls)
